@@ -27,12 +27,17 @@ def fromXfe (c : α × α × α) : List α := [c.1, c.2.1, c.2.2]
 /-- `usize::MAX + 1` on the 64-bit targets the crate is built for -/
 def USIZE_MOD : Nat := 2 ^ 64
 
-/-- `truncate(k)` exactly as compiled in the release profile (`overflow-checks = false`):
+/-- `truncate(k)` exactly as it was compiled in the release profile **before the repair F13** (`overflow-checks = false`):
     `coefficients().rev().take(k + 1).rev()` where `k + 1` **wraps** for `k = usize::MAX`
     (the dev/test profile panics there instead).  For `k + 1 < 2^64` this is `truncate`. -/
-def truncateUsize (F : FieldOps α) (p : List α) (k : Nat) : List α :=
+def truncateBeforeF13 (F : FieldOps α) (p : List α) (k : Nat) : List α :=
   let c := normalize F p
   c.drop (c.length - ((k + 1) % USIZE_MOD))
+
+/-- `truncate(k)` as compiled **after the repair F13** (`take(k.saturating_add(1))`) -/
+def truncateUsize (F : FieldOps α) (p : List α) (k : Nat) : List α :=
+  let c := normalize F p
+  c.drop (c.length - min (k + 1) (USIZE_MOD - 1))
 
 /-! ### evaluation with indeterminate / result in another field -/
 
